@@ -263,6 +263,55 @@ fn judge_nonascii_macro(seq: &[usize], closing: usize, arg: usize, l: &mut Local
     }
 }
 
+// ---- inner instructions whose whole encoding is a negative sized value ---------------------------------------
+// `db {x: s8} => x` with a negative argument: the block's value is the inner encodings joined bit by bit.
+
+const NEG_LINES: [&str; 5] = ["op {a}", "db {b}", "dw {b}", "nop", "db {a}"];
+const NEG_ARGS: [(&str, &str); 5] = [("0x22", "-2"), ("1", "-128"), ("5", "3"), ("0", "-1"), ("-1", "0x7f")];
+
+fn judge_negative_encoding_macro(seq: &[usize], arg: usize, l: &mut Local) {
+    let rules = "    nop => 0x00\n    op {a} => 0x10 @ a`8\n    db {x: s8} => x\n    dw {x: i16} => x\n";
+    let (a, b) = NEG_ARGS[arg];
+    let mut m = format!("#ruledef\n{{\n{}    pair {{a}}, {{b}} => asm {{\n", rules);
+    let mut inl = format!("#ruledef\n{{\n{}}}\nG:\nnop\n", rules);
+    for x in seq {
+        m += "        ";
+        m += NEG_LINES[*x];
+        m += "\n";
+        inl += &NEG_LINES[*x].replace("{a}", a).replace("{b}", b);
+        inl += "\n";
+    }
+    m += &format!("    }}\n}}\nG:\nnop\npair {}, {}\nH:\n#d8 0xff\n", a, b);
+    inl += "H:\n#d8 0xff\n";
+    let opts = Opts::iters(10);
+    l.eval();
+    let mo = run::assemble_str(&m, &opts);
+    l.eval();
+    let io = run::assemble_str(&inl, &opts);
+    l.nontrivial(&m);
+    l.traces_validated += 1;
+    l.class(if io.success() { "negative-encoding-inlined-ok" } else { "negative-encoding-inlined-rejected" });
+    let bad = if mo.panicked.is_some() {
+        Some(("C17:panic", "panic in the macro program"))
+    } else if io.success() && !mo.success() {
+        Some(("C17:macro-rejected-but-inlined-assembles", "the inlined block assembles but the macro call is rejected"))
+    } else if io.success() && mo.bits != io.bits {
+        Some(("C17:macro-bits-differ-from-inlined", "the macro call assembles to other bits than the inlined block"))
+    } else if io.failure() && mo.ok {
+        Some(("C17:macro-assembles-but-inlined-rejected", "the macro call assembles although the inlined block is rejected"))
+    } else {
+        None
+    };
+    if let Some((key, what)) = bad {
+        l.violation(Violation {
+            property: ID,
+            key: key.into(),
+            what: format!("{}: {}", what, m.replace('\n', " / ")),
+            case: json!({"family": "macro-negative-encoding", "program": m, "inlined": inl, "expected": io.summary(), "observed": mo.summary()}),
+        });
+    }
+}
+
 // ---- value-dependent inner instructions: certificate by search (DESIGN §4 C17) -------------------------
 
 fn cascade_rules() -> Vec<RuleSrc> {
@@ -580,9 +629,9 @@ fn judge_fn(tree: &E, args: (&str, &str), l: &mut Local) {
 fn fn_in_rules_cases() -> Vec<(String, String)> {
     let head = "#ruledef\n{\n    jmp {a} => { assert(a < 4), 0xa @ a`4 }\n    jmp {a} => 0xb0 @ a`8\n    nop => 0x00\n";
     // `ldk`: the rule has a parameter named like the global constant the function body reads
-    let with_fn = "    pos => 0xaa @ here()`8\n    dist {t} => 0xbb @ d(t)`8\n    far => 0xcc @ lab()`8\n    ldk {k: u8}, {v: u8} => 0xa0 @ k @ addk(v)`8\n}\n#fn here() => $\n#fn d(t) => $ - t\n#fn lab() => E\n#fn addk(v) => v + k\nk = 0x10\n";
-    let inlined = "    pos => 0xaa @ ($)`8\n    dist {t} => 0xbb @ ($ - t)`8\n    far => 0xcc @ (E)`8\n    ldk {k2: u8}, {v: u8} => 0xa0 @ k2 @ (v + k)`8\n}\nk = 0x10\n";
-    let items = ["jmp E", "jmp 2", "pos", "dist E", "dist 0", "far", "nop", "#d8 here()|#d8 $", "E:", "ldk 1, 2"];
+    let with_fn = "    pos => 0xaa @ here()`8\n    dist {t} => 0xbb @ d(t)`8\n    far => 0xcc @ lab()`8\n    ldk {k: u8}, {v: u8} => 0xa0 @ k @ addk(v)`8\n    ldf {x} => 0x10 @ fit8(x)\n    ldf {x} => 0x20 @ x`16\n}\n#fn fit8(v) => { assert(v >= 0 && v < 0x100), v`8 }\n#fn here() => $\n#fn d(t) => $ - t\n#fn lab() => E\n#fn addk(v) => v + k\nk = 0x10\n";
+    let inlined = "    pos => 0xaa @ ($)`8\n    dist {t} => 0xbb @ ($ - t)`8\n    far => 0xcc @ (E)`8\n    ldk {k2: u8}, {v: u8} => 0xa0 @ k2 @ (v + k)`8\n    ldf {x} => 0x10 @ { assert(x >= 0 && x < 0x100), x`8 }\n    ldf {x} => 0x20 @ x`16\n}\nk = 0x10\n";
+    let items = ["jmp E", "jmp 2", "pos", "dist E", "dist 0", "far", "nop", "#d8 here()|#d8 $", "E:", "ldk 1, 2", "ldf 0x1234", "ldf 5"];
     let k = items.len() as u64;
     let mut out = vec![];
     for i in 0..seq_count(k, 4) {
@@ -809,6 +858,19 @@ pub fn run(ctx: &Ctx) -> Report {
                 return;
             }
             judge_nonascii_macro(&seq, d[1] as usize, d[2] as usize, l);
+        }));
+    }
+    // inner encodings that are negative sized values
+    {
+        let kn = NEG_LINES.len() as u64;
+        let per = seq_count(kn, 3);
+        rep.absorb(par_run(per * NEG_ARGS.len() as u64, |i, l| {
+            let d = decode(i, &[per, NEG_ARGS.len() as u64]);
+            let seq = seq_decode(d[0], kn, 3);
+            if seq.is_empty() {
+                return;
+            }
+            judge_negative_encoding_macro(&seq, d[1] as usize, l);
         }));
     }
     // functions
